@@ -88,6 +88,8 @@ func RunC10(tier string) int {
 			run.Violation(v.Violation, v.What, map[string]any{"contenders": np, "pre_existing_lock_file": pe, "schedule": v.Trace})
 		}
 	})
+	// holder and contender owned by different users
+	c10CrossUser(run, probe, base, tierN(tier, 6, 40))
 	run.Assume("the controller serialises the steps: 'both in the critical section' is observed at a point of the schedule, not inferred from timestamps; waiting contenders sleep their real 1 s")
 	run.Assume("a lock file naming a live unrelated PID (PID reuse) is not generated: the statement speaks about locks left by dead processes")
 	return run.Finish()
